@@ -303,6 +303,25 @@ func c17SubRefs(r *core.Report) {
 				continue
 			}
 			n++
+			// the value of a reference belongs to its target: no descent into it (a loaded document
+			// has Value set on references, and a recursive schema would be descended into for ever)
+			firstSelf, refReturn := token.NoPos, token.NoPos
+			ast.Inspect(d.Body, func(nd ast.Node) bool {
+				switch x := nd.(type) {
+				case *ast.CallExpr:
+					if f := core.CalleeOf(info, x); f != nil && f.Name() == d.Name.Name && firstSelf == token.NoPos {
+						firstSelf = x.Pos()
+					}
+				case *ast.IfStmt:
+					if be, ok := ast.Unparen(x.Cond).(*ast.BinaryExpr); ok && be.Op == token.NEQ && strings.HasSuffix(core.ExprStr(be.X), ".Ref") && core.ExprStr(be.Y) == `""` && core.Terminates(info, x.Body.List) && refReturn == token.NoPos {
+						refReturn = x.Pos()
+					}
+				}
+				return true
+			})
+			if firstSelf != token.NoPos {
+				r.Check(refReturn != token.NoPos && refReturn < firstSelf, "subrefs:"+core.FuncName(d)+"/reference", p.Pos(d.Pos()), "returns for a reference before any descent", core.FuncName(d)+" descends into the value of a schema that is a reference (no `if x.Ref != \"\" { return }` before its first recursive call): on a loaded document the value is the target itself, and a schema that refers to itself through additionalProperties (a tree) is walked until the stack overflows")
+			}
 			var missing []string
 			for _, h := range holders {
 				if !mentioned[h] {
